@@ -13,7 +13,8 @@ import (
 
 // list-ds: the exported ds/list type, directly.
 type listDS struct {
-	l *list.List
+	l        *list.List
+	needDump bool
 }
 
 func init() { suites["list-ds"] = func() suite { return &listDS{} } }
@@ -27,6 +28,20 @@ func (s *listDS) sizeOf(k []byte) int {
 }
 
 func (s *listDS) gen(r *rand.Rand, step int) string {
+	// every mutation is followed by a full dump, so a wrong list is seen at once
+	if s.needDump {
+		s.needDump = false
+		return "dump"
+	}
+	line := s.gen1(r, step)
+	switch strings.Fields(line)[0] {
+	case "rpush", "lpush", "lpop", "rpop", "lrem", "lset", "ltrim":
+		s.needDump = true
+	}
+	return line
+}
+
+func (s *listDS) gen1(r *rand.Rand, step int) string {
 	keys := keyAlphabet[:4]
 	k := pick(r, keys)
 	n := s.sizeOf(k)
@@ -35,14 +50,14 @@ func (s *listDS) gen(r *rand.Rand, step int) string {
 		m := r.Intn(4)
 		var vs [][]byte
 		for i := 0; i < m; i++ {
-			vs = append(vs, pick(r, valAlphabet))
+			vs = append(vs, pickVal(r))
 		}
 		return fmt.Sprintf("rpush %s %s", hx(k), hxList(vs))
 	case 3, 4:
 		m := r.Intn(4)
 		var vs [][]byte
 		for i := 0; i < m; i++ {
-			vs = append(vs, pick(r, valAlphabet))
+			vs = append(vs, pickVal(r))
 		}
 		return fmt.Sprintf("lpush %s %s", hx(k), hxList(vs))
 	case 5:
@@ -58,9 +73,9 @@ func (s *listDS) gen(r *rand.Rand, step int) string {
 		if r.Intn(4) == 0 {
 			op = "lremnum"
 		}
-		return fmt.Sprintf("%s %s %d %s", op, hx(k), boundaryInt(r, n), hx(pick(r, valAlphabet)))
+		return fmt.Sprintf("%s %s %d %s", op, hx(k), boundaryInt(r, n), hx(pickVal(r)))
 	case 13:
-		return fmt.Sprintf("lset %s %d %s", hx(k), boundaryInt(r, n), hx(pick(r, valAlphabet)))
+		return fmt.Sprintf("lset %s %d %s", hx(k), boundaryInt(r, n), hx(pickVal(r)))
 	case 14:
 		return fmt.Sprintf("ltrim %s %d %d", hx(k), boundaryInt(r, n), boundaryInt(r, n))
 	default:
